@@ -407,6 +407,42 @@ class RecDict(dict):
         super().clear()
 
 
+class RecDeque:
+    pass
+
+
+def _mk_recdeque():
+    from collections import deque
+
+    class _RecDeque(deque):
+        """deque(maxlen) that records every silent drop (an add while full)"""
+        drops = 0
+
+        def _note(self, k=1):
+            if self.maxlen is not None and len(self) + k > self.maxlen:
+                type(self).drops += len(self) + k - self.maxlen
+
+        def append(self, x):
+            self._note()
+            super().append(x)
+
+        def appendleft(self, x):
+            self._note()
+            super().appendleft(x)
+
+        def extend(self, it):
+            it = list(it)
+            self._note(len(it))
+            super().extend(it)
+
+        def extendleft(self, it):
+            it = list(it)
+            self._note(len(it))
+            super().extendleft(it)
+    _RecDeque.drops = 0
+    return _RecDeque
+
+
 def concrete_generic_step(inputs, params):
     """the generic step on the real package; nested runs go to the concrete replay of the summary"""
     import tapescript
@@ -417,9 +453,10 @@ def concrete_generic_step(inputs, params):
     mi = inputs.get('max_items', 1024)
     ms = inputs.get('max_item_size', 1024)
     stack = tapescript.Stack(max_items=mi, max_item_size=ms)
-    stack.deque = deque(maxlen=mi)
+    RD = _mk_recdeque()
+    stack.deque = RD(maxlen=mi)
     for i in range(len(lens)):
-        stack.deque.append(inputs.get(f's{i}', b''))
+        deque.append(stack.deque, inputs.get(f's{i}', b''))
     tape = tapescript.Tape(inputs['tape'], callstack_count=inputs.get('callstack_count', 0),
                            callstack_limit=inputs.get('callstack_limit', 128))
     RF.set_tape_flags(tape)
@@ -457,7 +494,7 @@ def concrete_generic_step(inputs, params):
         RF.token_bytes = old_tb
         RF.run_tape = old_rt
     return dict(r=r, stack=stack, tape=tape, cache=cache, pre_str=pre, allocs=allocs, max_items=mi, max_item_size=ms,
-                summ=summ, pre_count=pre_count, pre_flags=pre_flags, def_tape=def_tape,
+                summ=summ, pre_count=pre_count, pre_flags=pre_flags, def_tape=def_tape, drops=RD.drops,
                 def_pointer=inputs.get('def_pointer', 0))
 
 
